@@ -41,6 +41,16 @@ func (s dleqStmt) String() string {
 }
 
 func dleqVerify(par dleq.Params, st dleqStmt, pr *dleq.Proof) (ok bool, pn interface{}, stack string) {
+	sn := new(opSnap).elem("A", st.A).elem("kA", st.kA).elems("B", st.B).elems("kB", st.kB).bytes("DST", par.DST)
+	if pb, err := pr.MarshalBinary(); err == nil {
+		sn.add("proof", func() []byte { b, _ := pr.MarshalBinary(); return b })
+		_ = pb
+	}
+	defer func() {
+		if pn == nil {
+			noteOperands(sn, "dleq.Verify")
+		}
+	}()
 	pn, stack = vlib.Catch(func() {
 		v := dleq.Verifier{Params: par}
 		if len(st.B) == 1 {
@@ -58,6 +68,7 @@ func dleqCase(t *rapid.T, si suiteInfo) {
 	sub := "dleq/" + si.name
 	key := func(k string) string { return "C16/dleq/" + si.name + "/" + k }
 	vlib.Eval(sub)
+	defer reportOperands(t, key("operand-changed"))
 	h := rapid.SampledFrom(dleqHashes).Draw(t, "hash")
 	dst := vlib.Bytes(t, 0, 40, "dst")
 	if rapid.IntRange(0, 5).Draw(t, "dstBoundary") == 0 {
@@ -94,6 +105,7 @@ func dleqCase(t *rapid.T, si suiteInfo) {
 	var proof *dleq.Proof
 	var err error
 	pv := dleq.Prover{Params: par}
+	psn := new(opSnap).scalar("k", k1).scalar("rnd", rr).elem("A", st.A).elem("kA", st.kA).elems("B", st.B).elems("kB", st.kB).bytes("DST", par.DST)
 	if m == 1 && rapid.Bool().Draw(t, "single") {
 		proof, err = pv.ProveWithRandomness(k1, st.A, st.kA, st.B[0], st.kB[0], rr)
 	} else {
@@ -102,6 +114,18 @@ func dleqCase(t *rapid.T, si suiteInfo) {
 	if err != nil {
 		vlib.Report(t, key("prove-error"), fmt.Sprintf("%s: %v", desc, err))
 		return
+	}
+	if !checkOperands(t, psn, key("operand-changed"), desc+" dleq.Prove") {
+		return
+	}
+	// the same secret, randomness and statement objects give the same proof a second time
+	if p2, err := pv.ProveBatchWithRandomness(k1, st.A, st.kA, st.B, st.kB, rr); err == nil {
+		b1, _ := proof.MarshalBinary()
+		b2, _ := p2.MarshalBinary()
+		if !bytes.Equal(b1, b2) {
+			vlib.Report(t, key("second-proof-with-the-same-objects-differs"), fmt.Sprintf("%s: %x then %x", desc, b1, b2))
+			return
+		}
 	}
 	pb, err := proof.MarshalBinary()
 	if err != nil || len(pb) != 2*L {
@@ -424,6 +448,79 @@ func dleqCase(t *rapid.T, si suiteInfo) {
 	}
 }
 
+// TestC16DLEQLargeBatch: batches whose size crosses the one-byte boundary of the two-byte
+// index I2OSP(i, 2) in the composite transcript (255, 256, 257, 258 and one larger), proof
+// compared byte for byte with the RFC 9497 reference; in the two cheapest groups only (a
+// batch of 257 costs about 2 000 scalar multiplications).
+func TestC16DLEQLargeBatch(t *testing.T) {
+	defer vlib.Done()
+	for gi, si := range allSuites[:2] {
+		si := si
+		n := vlib.N(3, 12)
+		if gi == 1 {
+			n = vlib.N(1, 6)
+		}
+		t.Run(si.name, func(t *testing.T) {
+			g := si.g
+			sub := "dleq-large-batch/" + si.name
+			key := func(k string) string { return "C16/dleq-large-batch/" + si.name + "/" + k }
+			vlib.Check(t, n, func(t *rapid.T) {
+				vlib.Eval(sub)
+				defer reportOperands(t, key("operand-changed"))
+				m := rapid.SampledFrom([]int{255, 256, 257, 258, 300, 513}).Draw(t, "m")
+				vlib.Class(sub, fmt.Sprintf("batch=%d", m))
+				h := rapid.SampledFrom(dleqHashes).Draw(t, "hash")
+				dst := vlib.Bytes(t, 0, 20, "dst")
+				par := dleq.Params{G: g, H: h, DST: dst}
+				ref := refSuite{g: g, h: h, ctx: append([]byte{}, dst...)}
+				k, _ := si.drawScalar(t, true, "k")
+				rr, _ := si.drawScalar(t, true, "rnd")
+				A := g.Generator()
+				kA := g.NewElement().MulGen(k)
+				seed := rapid.Uint64().Draw(t, "elems")
+				B := make([]group.Element, m)
+				kB := make([]group.Element, m)
+				for i := range B {
+					var sb [16]byte
+					vlib.ExpandInto(sb[:], seed+uint64(i))
+					B[i] = g.NewElement().MulGen(si.scalarFromBig(new(big.Int).SetBytes(sb[:])))
+					kB[i] = g.NewElement().Mul(B[i], k)
+				}
+				desc := fmt.Sprintf("group=%s hash=%v dst=%x k=%x r=%x batch=%d (B[i] = expand(%d+i)·G)", si.name, h, dst, serS(k), serS(rr), m, seed)
+				psn := new(opSnap).scalar("k", k).scalar("rnd", rr).elem("A", A).elem("kA", kA)
+				proof, err := dleq.Prover{Params: par}.ProveBatchWithRandomness(k, A, kA, B, kB, rr)
+				if err != nil {
+					vlib.Report(t, key("prove-error"), fmt.Sprintf("%s: %v", desc, err))
+					return
+				}
+				if !checkOperands(t, psn, key("operand-changed"), desc+" dleq.ProveBatch") {
+					return
+				}
+				pb, _ := proof.MarshalBinary()
+				rc, rs := ref.generateProof(k, A, kA, B, kB, rr)
+				if want := append(serS(rc), serS(rs)...); !bytes.Equal(pb, want) {
+					vlib.Report(t, key("proof-differs-from-RFC9497"), fmt.Sprintf("%s: proof=%x reference=%x", desc, pb, want))
+					return
+				}
+				if !(dleq.Verifier{Params: par}).VerifyBatch(A, kA, B, kB, proof) {
+					vlib.Report(t, key("honest-proof-rejected"), desc)
+					return
+				}
+				// one element beyond index 255 replaced ⇒ false
+				j := rapid.IntRange(0, m-1).Draw(t, "alterIdx")
+				kB2 := copyElems(kB)
+				kB2[j] = g.NewElement().Add(kB[j], g.Generator())
+				if (dleq.Verifier{Params: par}).VerifyBatch(A, kA, B, kB2, proof) {
+					vlib.Report(t, key("verifies/alter=kB"), fmt.Sprintf("%s: kB[%d] replaced", desc, j))
+					return
+				}
+				vlib.NonTrivial(sub, "", []byte(desc), pb)
+				vlib.Sample(sub, "large-batch", desc+fmt.Sprintf(" proof=%x → equals reference, verifies, kB[%d] altered ⇒ false", pb, j))
+			})
+		})
+	}
+}
+
 func TestC16DLEQ(t *testing.T) {
 	defer vlib.Done()
 	for _, si := range allSuites {
@@ -451,18 +548,37 @@ func dlCase(t *rapid.T, si suiteInfo) {
 	rdSeed := rapid.Uint64().Draw(t, "rnd.rdseed")
 	rd := vlib.NewReader(rdSeed)
 	desc := fmt.Sprintf("group=%s G=%x k=%x kG=%x userID=%x otherInfo=%x", si.name, ser(G), serS(k), ser(kG), uid, oi)
+	defer reportOperands(t, key("operand-changed"))
 	var pr dl.Proof
+	psn := new(opSnap).elem("G", G).elem("kG", kG).scalar("k", k).bytes("userID", uid).bytes("otherInfo", oi)
 	if pn, st := vlib.Catch(func() { pr = dl.Prove(g, G, kG, k, uid, oi, rd) }); pn != nil {
 		vlib.Report(t, key("prove-panic/"+vlib.PanicClass(pn)), fmt.Sprintf("%s: %v\n%s", desc, pn, st))
 		return
 	}
+	if !checkOperands(t, psn, key("operand-changed"), desc+" dl.Prove") {
+		return
+	}
 	verify := func(G2, kG2 group.Element, p2 dl.Proof, u2, o2 []byte) (ok bool, pn interface{}, st string) {
+		sn := new(opSnap).elem("G", G2).elem("kG", kG2).elem("proof.V", p2.V).scalar("proof.R", p2.R).bytes("userID", u2).bytes("otherInfo", o2)
 		pn, st = vlib.Catch(func() { ok = dl.Verify(g, G2, kG2, p2, u2, o2) })
+		if pn == nil {
+			noteOperands(sn, "dl.Verify")
+		}
 		return
 	}
 	if ok, pn, st := verify(G, kG, pr, uid, oi); pn != nil || !ok {
 		vlib.Report(t, key("honest-proof-rejected"), fmt.Sprintf("%s: ok=%v panic=%v %s", desc, ok, pn, st))
 		return
+	}
+	// the same secret object proves again (another nonce): the second proof must verify too
+	{
+		var pr2 dl.Proof
+		if pn, _ := vlib.Catch(func() { pr2 = dl.Prove(g, G, kG, k, uid, oi, vlib.DrawReader(t, "rndAgain")) }); pn == nil {
+			if ok, pn, st := verify(G, kG, pr2, uid, oi); pn != nil || !ok {
+				vlib.Report(t, key("second-proof-with-the-same-secret-rejected"), fmt.Sprintf("%s: V=%x R=%x ok=%v panic=%v %s", desc, ser(pr2.V), serS(pr2.R), ok, pn, st))
+				return
+			}
+		}
 	}
 	// independent re-computation of the verification equation V = R·G + c·kG needs the
 	// challenge, whose transcript format is circl's own; the metamorphic checks below do not.
@@ -781,6 +897,12 @@ func qnProofString(p *qndleq.Proof) string {
 }
 
 func qnVerify(p *qndleq.Proof, g, gx, h, hx, N *big.Int) (ok bool, pn interface{}, st string) {
+	sn := new(opSnap).big("g", g).big("gx", gx).big("h", h).big("hx", hx).big("N", N).big("proof.Z", p.Z).big("proof.C", p.C)
+	defer func() {
+		if pn == nil {
+			noteOperands(sn, "qndleq.Proof.Verify")
+		}
+	}()
 	pn, st = vlib.Catch(func() { ok = p.Verify(g, gx, h, hx, N) })
 	return
 }
@@ -859,7 +981,12 @@ func qndleqCase(t *rapid.T) {
 		sp = uint(rapid.SampledFrom([]int{128, 129, 136, 160, 192, 256}).Draw(t, "sp"))
 	}
 	desc := fmt.Sprintf("N=%v (p=%v q=%v) g=%v h=%v x=%v secParam=%d", N, P.p, Q.p, g, h, x, sp)
+	defer reportOperands(t, key("operand-changed"))
+	psn := new(opSnap).big("x", x).big("g", g).big("gx", gx).big("h", h).big("hx", hx).big("N", N)
 	proof, err := qndleq.Prove(vlib.DrawReader(t, "rnd"), x, g, gx, h, hx, N, sp)
+	if err == nil && !checkOperands(t, psn, key("operand-changed"), "qndleq.Prove") {
+		return
+	}
 	if err != nil {
 		vlib.Report(t, key("prove-error"), fmt.Sprintf("%s: %v", desc, err))
 		return
